@@ -74,6 +74,13 @@ def c01(E, blt, opts, r):
             ez = any(c.state == 'elected' and getattr(c.vote, '_value', None) == 0 for c in E.C)
         except Exception:
             ez = False
+        # ... or more winners than seats while an elected candidate holds less than the quota (what postCheck trips over: K14, K21)
+        try:
+            ob = (rule_name(E) in MEEKS and len([c for c in E.C if c.state == 'elected']) > E.nSeats
+                  and any(c.state == 'elected' and c.vote < E.quota for c in E.C))
+        except Exception:
+            ob = False
+        sig = dict(sig, over_elected_below_quota=ob)
         return [V_('c01-crash', "count raised %s\n%s" % (st[6:], r.get('exc_tb', '')), exception=st[6:].split('(')[0], elected_tally_zero=ez, **sig)]
     rule = rule_name(E)
     electable = [c for c in E.C if c.state != 'withdrawn' and not (rule == 'mpls' and c.isUndeclared)]
@@ -460,7 +467,7 @@ def batch_check(E, acts, sig):
     i = 0
     while i < len(acts):
         a = acts[i]
-        if a['tag'] == 'defeat' and any(k in a['msg'] for k in ('sure loser', 'certain loser', 'Defeat batch:')) and i > 0:
+        if a['tag'] == 'defeat' and any(k in a['msg'] for k in ('sure loser', 'certain loser', 'Defeat batch:', 'Defeat batch(zero)')) and i > 0:
             j = i
             while j < len(acts) and acts[j]['tag'] == 'defeat' and acts[j]['msg'].split(':')[0] == a['msg'].split(':')[0]: j += 1
             before = acts[i - 1]; after = acts[j - 1]
@@ -480,9 +487,12 @@ def batch_check(E, acts, sig):
                             und = [c for c in E.electionProfile.undeclared]
                             surplus = surplus + sum((before['cstate'][c]['vote'] for c in und if before['cstate'][c]['state'] == 'hopeful'), V(0))
                 low_rest = min(fv(E, after['cstate'][c]['vote']) for c in rest)
-                if not fv(E, tot) + fv(E, surplus) < low_rest:
+                # (wigm's zero batch: the candidates whose tally compares equal to zero, excluded when no surplus is pending;
+                #  only the "enough candidates remain" clause is checked for it -- under guarded arithmetic "equal to zero" is approximate)
+                if 'batch(zero)' not in a['msg'] and not fv(E, tot) + fv(E, surplus) < low_rest:
                     out.append(V_('c07-batch-not-sure-losers', "batch %s: tallies %s + surplus %s not below next tally %s at %r" %
                                   (batch, tot, surplus, low_rest, a['msg']), **sig))
+            if batch:
                 nel = len([1 for c in after['cstate'].values() if c['state'] == 'elected'])
                 if len(rest) + nel < min(E.nSeats, len([c for c in E.C if c.state != 'withdrawn' and not (rule == 'mpls' and c.isUndeclared)])):
                     out.append(V_('c07-batch-too-many', "batch at %r leaves %d continuing + %d elected for %d seats" % (a['msg'], len(rest), nel, E.nSeats), **sig))
